@@ -166,84 +166,97 @@ func (c *ChunkBuffer) ChunkedString(level, offset int) string {
 				continue
 			}
 			buf.WriteString(c.chunkString(state, chunk.buffer))
-		// prefix operator
-		case Prefix:
-			if next := c.nextChunk(); next != nil {
-				buf.WriteString(c.chunkString(state, chunk.buffer+next.buffer))
-			}
-		// group operator
-		case Group:
-			// If group operator, inside expressions should be printed on the same line
-			if next := c.nextChunk(); next != nil {
-				buf.WriteString(c.chunkGroupOperator(state, next))
-			}
+		// prefix operator and group operator
+		case Prefix, Group:
+			// Prefix operator sticks to its operand, and inside expressions of the group
+			// should be printed on the same line
+			buf.WriteString(c.chunkString(state, c.operandString(state, chunk)))
 		// infix operator
 		case Infix:
 			buf.WriteString(c.chunkString(state, chunk.buffer))
 		// Otherwise (token), create chunk string
 		default:
 			// Pre-combine infix operator that must be placed on the same line
-			chunk.buffer += c.combineInfixChunk()
+			chunk.buffer += c.combineInfixChunk(state)
 			buf.WriteString(c.chunkString(state, chunk.buffer))
 		}
 	}
 }
 
 // Read peek chunk and combine if the chunk is placed on the same line
-func (c *ChunkBuffer) combineInfixChunk() string {
-	var peek *Chunk
-	var expr bytes.Buffer
+func (c *ChunkBuffer) combineInfixChunk(state *ChunkState) string {
+	// Look ahead over the comments, the next operator may need to be combined
 	var index int
-
 	for {
 		index++
-		peek = c.peekChunk(index)
-		if peek == nil {
-			return ""
-		}
-		switch peek.Type {
-		// If peek chunk is Infix, it may combine
-		case Infix:
-			goto OUT
-		// If peek chunk is Comment, should be combined and look up next chunk
-		case Comment:
-			expr.WriteString(" " + peek.buffer)
-		default:
-			return ""
-		}
-	}
-OUT:
-
-	// Infix operator
-	_, ok := mustSingleOperators[peek.buffer]
-	if !ok {
-		return ""
-	}
-	expr.WriteString(" " + peek.buffer)
-
-	// Skip infix comments
-	for {
-		index++
-		peek = c.peekChunk(index)
+		peek := c.peekChunk(index)
 		if peek == nil {
 			return ""
 		}
 		if peek.Type == Comment {
-			expr.WriteString(" " + peek.buffer)
 			continue
+		}
+		if peek.Type != Infix {
+			return ""
+		}
+		if _, ok := mustSingleOperators[peek.buffer]; !ok {
+			return ""
 		}
 		break
 	}
-	// Finally, add token buffer
-	expr.WriteString(" " + peek.buffer)
 
-	// Forward index position to be read
-	for index > 0 {
-		c.nextChunk()
-		index--
+	// Combine comments, the infix operator, infix comments and the whole of right operand
+	var expr bytes.Buffer
+	sep := " "
+	for {
+		next := c.nextChunk()
+		if next == nil {
+			return expr.String()
+		}
+		switch {
+		case next.isLineComment():
+			// line comment must be terminated by line feed
+			expr.WriteString(sep + next.buffer + c.nextLine(state))
+			state.reset()
+			sep = ""
+		case next.Type == Comment, next.Type == Infix:
+			expr.WriteString(sep + next.buffer)
+			sep = " "
+		default:
+			// Finally, add operand buffer
+			expr.WriteString(sep + c.operandString(state, next))
+			return expr.String()
+		}
 	}
+}
 
-	return expr.String()
+// operandString() returns a single operand string which starts from the chunk.
+// The prefix operators stick to what they are applied to,
+// and the group is read until its closing parenthesis including nested groups.
+func (c *ChunkBuffer) operandString(state *ChunkState, chunk *Chunk) string {
+	switch {
+	case chunk.Type == Prefix:
+		expr := chunk.buffer
+		for {
+			next := c.nextChunk()
+			if next == nil {
+				return expr
+			}
+			switch {
+			case next.isLineComment():
+				expr += " " + next.buffer + c.nextLine(state)
+				state.reset()
+			case next.Type == Comment:
+				expr += next.buffer + " "
+			default:
+				return expr + c.operandString(state, next)
+			}
+		}
+	case chunk.Type == Group && chunk.buffer == "(":
+		return c.chunkGroupOperator(state)
+	default:
+		return chunk.buffer
+	}
 }
 
 // nextLine() returns line feed and indent string
@@ -271,25 +284,33 @@ func (c *ChunkBuffer) chunkLineComment(state *ChunkState, chunk *Chunk) string {
 	return buf.String()
 }
 
-// chunkGroupOperator() returns chunk group expression string
-func (c *ChunkBuffer) chunkGroupOperator(state *ChunkState, chunk *Chunk) string {
-	expr := chunk.buffer
+// chunkGroupOperator() returns chunk group expression string,
+// reads chunks until the closing parenthesis of the group
+func (c *ChunkBuffer) chunkGroupOperator(state *ChunkState) string {
+	expr := "("
+	sep := ""
 
 	for {
 		next := c.nextChunk()
 		if next == nil {
-			return c.chunkString(state, "("+expr+")")
+			return expr + ")"
 		}
 
 		switch {
 		case next.isLineComment():
-			expr += next.buffer
+			expr += sep + next.buffer
 			expr += c.nextLine(state)
 			state.reset()
-		case next.buffer == ")":
-			return c.chunkString(state, "("+expr+")")
+			sep = ""
+		case next.Type == Group && next.buffer == ")":
+			return expr + ")"
+		case next.Type == Prefix, next.Type == Group:
+			// nested group or prefixed operand
+			expr += sep + c.operandString(state, next)
+			sep = " "
 		default:
-			expr += " " + next.buffer
+			expr += sep + next.buffer
+			sep = " "
 		}
 	}
 }
